@@ -65,6 +65,18 @@ func init() {
 			},
 		},
 		propCheck{
+			ID: "C15", Level: "fault_enumeration",
+			Rule: "one evaluation = one simulated run: a generated schema (keyed/keyless/composite table, secondary and unique indexes, CHECKs, defaults, generated column, optional FK child, optional triggers + audit table, optional INSERT..SELECT source) and 1-10 generated DML statements; for EVERY statement the injected storage error is placed at every row-edit call k = 1..N (enumerated, until the statement runs through without the fault firing) and natural failures are planted at drawn row positions; after each failing execution full scans of all tables and index-driven probes must equal the state before, from the executing session and from an observer session; non-trivial = at least one fault fired or a statement with >= 1 row edit ran; distinct = distinct hash of the (statement kind, error class, fired) sequence",
+			Real: []string{"parser", "planbuilder", "analyzer", "rowexec (insert/update/delete/trigger/FK iterators)", "sql/plan TableEditorIter", "memory table editor and session"},
+			Stub: []string{"storage error source: verifhook.Fault at the top of tableEditor.Insert/Update/Delete (simulator decides which call fails)"},
+			Assumptions: []string{"fault positions are enumerated per statement up to 80 edit calls; schemas, data and statements are sampled",
+				"AUTO_INCREMENT columns are excluded here (gaps after a failed insert are allowed; C20 covers the counter)"},
+			Subs: []subCheck{
+				{ID: "C15", World: "sqlsim", Quick: 8000, Thorough: 400000, QuickCap: 80, ThoroughCap: 1500, GC: "100",
+					Probes: []string{"natural-failure-after-edits", "edit-error:replace", "edit-error:odku", "edit-error:insert-select", "natural-failure:fk", "natural-failure:check"}},
+			},
+		},
+		propCheck{
 			ID: "C45", Level: "exploration",
 			Rule: "one evaluation = one simulated run: 2-4 tasks redact generated statements and single lexemes through one shared Mapping, the scheduler interleaving them at the RUnlock->Lock upgrade window; non-trivial = the upgrade window actually parked a goroutine; distinct = distinct hash of the event-kind sequence",
 			Real: []string{"sqlredact.Mapping", "sqlredact.RedactSQLForTraceInto", "vitess tokenizer and parser"},
